@@ -81,6 +81,21 @@ class _Normalise(ast.NodeTransformer):
             return ast.copy_location(ast.If(test=n.value.test, body=[self.visit_Assign(mk(n.value.body))], orelse=[self.visit_Assign(mk(n.value.orelse))]), n)
         return n
 
+    def visit_Expr(self, n):
+        # `L.append(a if c else b)` as a statement of its own, c a plain name: `if c: L.append(a) else: L.append(b)` (the receiver is a plain
+        # name, looked up before the argument either way)
+        self.generic_visit(n)
+        c = n.value
+        if isinstance(c, ast.Call) and isinstance(c.func, ast.Attribute) and isinstance(c.func.value, ast.Name) and c.func.attr in ('append', 'extend') and \
+                len(c.args) == 1 and not c.keywords and isinstance(c.args[0], ast.IfExp) and isinstance(c.args[0].test, ast.Name):
+            def mk(v):
+                return ast.copy_location(ast.Expr(value=ast.copy_location(ast.Call(
+                    func=ast.Attribute(value=ast.Name(id=c.func.value.id, ctx=ast.Load()), attr=c.func.attr, ctx=ast.Load()), args=[v], keywords=[]), c)), n)
+            out = ast.copy_location(ast.If(test=c.args[0].test, body=[mk(c.args[0].body)], orelse=[mk(c.args[0].orelse)]), n)
+            ast.fix_missing_locations(out)
+            return out
+        return n
+
     def visit_AnnAssign(self, n):
         # `x: T = v` is `x = v`; a bare declaration `x: T` is nothing
         self.generic_visit(n)
